@@ -31,7 +31,9 @@ def run(ctx, report):
     report.section("unit conversion on a grid", unit_grid, ctx, report)
     report.section("axis routing", axis_routing, ctx, report)
     report.section("fit_to_screen", fit_to_screen, ctx, report, folder)
-    report.section("writer entry", writer_entry, ctx, report, folder)
+    report.structural_section("writer entry (shape)", "R-GRID: BaseWriter._relativize_and_fit_to_screen folded on every option "
+                              "combination (writer_entry_fold)", writer_entry, ctx, report, folder)
+    report.section("writer entry on the option grid", writer_entry_fold, ctx, report)
     report.section("level coverage", level_coverage, ctx, report)
     report.section("is_relative", is_relative_meaning, ctx, report, folder)
     from . import webvtt_layout_fold
@@ -400,18 +402,91 @@ def writer_entry(ctx, report, folder):
     lay = fn.params[1]
     ok_rel = sorted(rel_guards) == sorted([lay, "self.relativize"])
     ok_fit = sorted(fit_guards) == sorted([lay, "self.fit_to_screen"])
-    report.check(ok_rel, "R-GUARD", fn, "relativization depends only on the relativize option (and a layout being present)",
-                 {"guards": rel_guards}, "4")
-    report.check(ok_fit, "R-GUARD", fn, "fit-to-screen depends only on the fit_to_screen option (and a layout being present)",
-                 {"guards": fit_guards, "why": "with relativize off, percentage layouts must still be fitted"}, "6")
+    report.recognise(ok_rel, "R-GUARD", fn, "relativization depends only on the relativize option (and a layout being present)",
+                     {"guards": rel_guards}, "4")
+    report.recognise(ok_fit, "R-GUARD", fn, "fit-to-screen depends only on the fit_to_screen option (and a layout being present)",
+                     {"guards": fit_guards, "why": "with relativize off, percentage layouts must still be fitted"}, "6")
     order_ok = all(("REL" not in PR.flat(ev) or "FIT" not in PR.flat(ev) or
                     PR.flat(ev).index("REL") < PR.flat(ev).index("FIT")) for ev, _ in paths)
-    report.check(order_ok, "R-ORDER", fn, "relativize before fit (fit_to_screen presumes percentages)", None, "4")
+    report.recognise(order_ok, "R-ORDER", fn, "relativize before fit (fit_to_screen presumes percentages)", None, "4")
     calls = [c for c in walk_no_nested(fn.node) if isinstance(c, ast.Call) and isinstance(c.func, ast.Attribute)
              and c.func.attr == "as_percentage_of"]
     ok = len(calls) == 1 and [src(a) for a in calls[0].args] == ["self.video_width", "self.video_height"]
-    report.check(ok, "R-FIELD-ROUTING", fn, "the writer's video width and height are handed to the conversion",
-                 [short(c) for c in calls], "2")
+    report.recognise(ok, "R-FIELD-ROUTING", fn, "the writer's video width and height are handed to the conversion",
+                     [short(c) for c in calls], "2")
+
+
+def writer_entry_fold(ctx, report):
+    """`BaseWriter._relativize_and_fit_to_screen` folded on a stub writer: relativize x fit_to_screen x {no layout, a percentage
+    layout that overshoots the safe area, one that fits, a pixel layout that fits, one that overshoots} with a 640 x 360 video"""
+    from ..core.constfold import Stub, FoldRaise
+    F = Folder(ctx.index)
+    F.object_classes = "*"
+    fn = ctx.index.get_function("pycaption/base.py", "BaseWriter._relativize_and_fit_to_screen")
+    report.covered(fn)
+
+    def lay(ox, oy, ew, eh, unit):
+        return F.eval_in("pycaption.geometry", ast.parse(
+            f"Layout(origin=Point(Size(a, UnitEnum.{unit}), Size(b, UnitEnum.{unit})), extent=Stretch(Size(c, UnitEnum.{unit}), Size(d, UnitEnum.{unit})))",
+            mode="eval").body, {"a": ox, "b": oy, "c": ew, "d": eh})
+
+    def value(l):
+        if not isinstance(l, Stub):
+            return l
+        o, e_ = l.attrs.get("origin"), l.attrs.get("extent")
+        g = lambda s_: (round(float(s_.attrs["value"]), 4), getattr(s_.attrs["unit"], "name", None))      # noqa: E731
+        return (g(o.attrs["x"]), g(o.attrs["y"]), g(e_.attrs["horizontal"]), g(e_.attrs["vertical"]))
+    P, X = "PERCENT", "PIXEL"
+    cases = {
+        "a percentage layout that overshoots": (lambda: lay(50, 50, 60, 60, P), None),
+        "a percentage layout that fits": (lambda: lay(10, 10, 50, 50, P), None),
+        "a pixel layout that fits": (lambda: lay(64, 36, 320, 180, X), ((10.0, P), (10.0, P), (50.0, P), (50.0, P))),
+        "a pixel layout that overshoots": (lambda: lay(320, 180, 384, 216, X), ((50.0, P), (50.0, P), (60.0, P), (60.0, P))),
+    }
+    fitted = {((50.0, P), (50.0, P), (60.0, P), (60.0, P)): ((50.0, P), (50.0, P), (40.0, P), (45.0, P))}
+    bad = []
+    n = 0
+    for rel in (True, False):
+        for fit in (True, False):
+            me = Stub("writer", {"relativize": rel, "fit_to_screen": fit, "video_width": 640, "video_height": 360}, cls=fn.cls)
+            n += 1
+            try:
+                r0 = F.call_function(fn, [None], {}, self_value=me)
+            except (FoldRaise, AnalysisError) as e:
+                raise AnalysisError(f"_relativize_and_fit_to_screen cannot be folded without a layout: {e}")
+            if r0:
+                bad.append({"relativize": rel, "fit_to_screen": fit, "layout": None, "returns": str(r0)[:80], "required": "nothing"})
+            for label, (mk, as_pct) in cases.items():
+                n += 1
+                src_l = mk()
+                before = value(src_l)
+                px = as_pct is not None
+                if px and not rel:
+                    # (an absolute layout with relativization off: what happens to it is the writer's business - WebVTT drops
+                    # it, DFXP writes it as it is; fitting it is undefined.  Only the unfitted case is judged.)
+                    if fit:
+                        continue
+                    want = before
+                else:
+                    want = as_pct if px else before
+                    if fit:
+                        want = fitted.get(want, want)
+                try:
+                    got = value(F.call_function(fn, [src_l], {}, self_value=me))
+                except FoldRaise as e:
+                    bad.append({"relativize": rel, "fit_to_screen": fit, "layout": label, "raises": e.exc_name})
+                    continue
+                except AnalysisError as e:
+                    raise AnalysisError(f"_relativize_and_fit_to_screen cannot be folded on {label}: {e}")
+                if got != want:
+                    bad.append({"relativize": rel, "fit_to_screen": fit, "layout": label, "returns": got, "required": want})
+                elif value(src_l) != before:
+                    bad.append({"relativize": rel, "fit_to_screen": fit, "layout": label, "why": "the layout handed in was modified"})
+    report.count("writer_entry_grid_points", n)
+    report.check(not bad, "R-GRID", fn, f"_relativize_and_fit_to_screen on {n} combinations of relativize / fit_to_screen / layout: lengths are "
+                 "converted exactly when relativize is on (width for x, height for y), the box is cut at 90% / 95% exactly when "
+                 "fit_to_screen is on - also with relativize off -, conversion comes before fitting, no layout gives none",
+                 {"mismatches": bad[:3]}, "4")
 
 
 def _enclosing_tests(fnnode, method):
